@@ -480,7 +480,12 @@ class Program:
             return None
         name = "T" + self.name
         lines = ["func %s%s *rt.Co[%s] {" % (name, SIG, self.ret_type), "\treturn rt.NewCo(func(yield_ func(%s)) {" % self.ret_type]
-        lines += p_stmts(tb, 2)
+        if getattr(self, "form", "func") in ("lit", "nested"):
+            # the source body is a function literal without parameters: a, b, .. are captured
+            lines += p_stmts(tb, 2)
+        else:
+            # the parameters live in the scope of the body block (a multi-value ':=' re-assigns them)
+            lines += ["\t\tfunc%s {" % SIG] + p_stmts(tb, 3) + ["\t\t}(a, b, n, g1, g2, g3)"]
         lines += ["\t})", "}", ""]
         if helpers:
             lines.append(helpers)
@@ -841,7 +846,7 @@ class RichSampler(Sampler):
     later, range statements over literals in every variable form, delegation, and yielded
     expressions in many syntactic forms"""
 
-    EXTRA = {"VAR": 2, "MDEF": 2, "MASSIGN": 1, "SWI": 2, "TSW": 2, "FT": 1, "IIFE": 1, "CLO": 2, "RNG": 3, "YF": 2, "YX": 4, "IFI": 3, "ELSEBLK": 2}
+    EXTRA = {"VAR": 2, "MDEF": 2, "MASSIGN": 1, "SWI": 2, "TSW": 2, "FT": 1, "IIFE": 1, "CLO": 2, "RNG": 3, "YF": 2, "YX": 4, "IFI": 3, "ELSEBLK": 2, "GCH": 2}
 
     def __init__(self, rng, weights=None, max_depth=4):
         super().__init__(rng, weights, max_depth)
@@ -867,7 +872,7 @@ class RichSampler(Sampler):
             return super().stmt(budget, ctr, loopvars, in_loop, in_switch, depth, scope)
         kinds = []
         for k, w in self.EXTRA.items():
-            if k in ("SWI", "TSW", "FT", "RNG", "IFI", "ELSEBLK") and (depth >= self.max_depth or budget[0] < 2):
+            if k in ("SWI", "TSW", "FT", "RNG", "IFI", "ELSEBLK", "GCH") and (depth >= self.max_depth or budget[0] < 2):
                 continue
             if k == "MASSIGN" and not scope:
                 continue
@@ -927,6 +932,15 @@ class RichSampler(Sampler):
             v = self.fresh("iv")
             txt = ["if %s {" % ctr.guard()] + p_stmts(body, 1) + ["} else if %s := %s; %s > %s {" % (v, e, v, rng.choice(vals))] + p_stmts([("effv", 8, v)] + b2, 1) + ["}"]
             return [("rawif", "\n".join(txt), [body, [("effv", 8, v)] + b2])]
+        if k == "GCH":
+            # guard chain: the first arm ends in a jump (or return), further else-if arms complete
+            # normally, no final else; the statements after the chain must still run
+            jump = ("continue",) if in_loop and rng.random() < 0.5 else ("break",) if (in_loop and not in_switch) else ("return",)
+            first = [("eff", ctr.eff())] if rng.random() < 0.5 else [("yield", "%s + %d" % (rng.choice(vals), rng.randint(1, 9)))]
+            chain = None
+            for _ in range(rng.randint(1, 2)):
+                chain = [("if", ctr.guard(), sub(in_loop, in_switch), chain)]
+            return [("if", ctr.guard(), first + [jump], chain), ("eff", ctr.eff())]
         if k == "ELSEBLK":
             # an else block that starts with a yield-free if and goes on with more statements
             first = ("if", ctr.guard(), [("eff", ctr.eff())], None)
@@ -1433,6 +1447,8 @@ class ScopeSampler:
             kinds += ["CLOS"] * 3
         top = scopes[-1]
         own = [v for v in top["vars"] if v in self.NAMES and v not in top.get("ro", ())]
+        if len(scopes) == 1:
+            own = own + ["a", "b"]  # the body block of the function: parameters are re-assignable by ':='
         if own:
             kinds += ["MDEF"] * 2
         if self.closures(scopes):
@@ -1575,6 +1591,10 @@ def c04_programs(strlens=(0, 1, 2, 3), only_int=False):
         strlens = ()
     for L in strlens:
         kinds.append(("str%d" % L, ["s := rt.NondetString(7, %d)" % L], "s", "int", "rune", ["s = \"zz\""]))
+    for L in [x for x in strlens if x >= 2][:2]:
+        # the range expression is a conversion of a string: a slice range, keys are element positions
+        kinds.append(("runesconv%d" % L, ["s := rt.NondetString(7, %d)" % L], "[]rune(s)", "int", "rune", ["s = \"zz\""]))
+        kinds.append(("bytesconv%d" % L, ["s := rt.NondetString(7, %d)" % L], "[]byte(s)", "int", "byte", []))
     kinds.append(("slice3", ["sl := []int{a, b, a + b}"], "sl", "int", "int", ["sl[1] = b + 7", "sl = append(sl, a + 9)", "sl = sl[:1]", "sl[2] = sl[0] + 1"]))
     kinds.append(("slice0", ["sl := []int{}"], "sl", "int", "int", ["sl = append(sl, a + 9)"]))
     kinds.append(("slicenil", ["var sl []int"], "sl", "int", "int", ["sl = append(sl, a + 9)"]))
@@ -1606,7 +1626,7 @@ def c04_programs(strlens=(0, 1, 2, 3), only_int=False):
                 if K and K != "_":
                     parts.append("%s*100" % K if kt == "int" else K)
                 if V:
-                    parts.append("int(%s)" % V if vt == "rune" else V)
+                    parts.append("int(%s)" % V if vt in ("rune", "byte") else V)
                 return " + ".join(parts) if parts else "a"
 
             pre = [("raw", x) for x in setup]
@@ -1615,7 +1635,7 @@ def c04_programs(strlens=(0, 1, 2, 3), only_int=False):
                 if K and K != "_":
                     decl.append("var k int = 3")
                 if V == "v":
-                    decl.append("var v %s = -9" % ("rune" if vt == "rune" else "int"))
+                    decl.append("var v %s = %s" % (vt if vt in ("rune", "byte") else "int", "9" if vt == "byte" else "-9"))
                 elif V:
                     decl.append("dst := make([]int, 8)")
                 pre.append(("raw", "\n".join(decl)))
@@ -1669,7 +1689,7 @@ def c04_programs(strlens=(0, 1, 2, 3), only_int=False):
                 progs.append(Program(pid, stmts, family="rng_" + kname.rstrip("0123"), tags=tags))
         # range inside a non-generator closure of the generator
         if vt is not None:
-            vexpr = "int(v)" if vt == "rune" else "v"
+            vexpr = "int(v)" if vt in ("rune", "byte") else "v"
             stmts = [("raw", x) for x in setup]
             stmts.append(("raw", "sum := func() int {\n\tt := 0\n\tfor k, v := range %s {\n\t\tt += k*100 + %s\n\t}\n\treturn t\n}" % (coll, vexpr)))
             stmts += [("yield", "sum() + 1")]
@@ -1814,6 +1834,15 @@ def c06_consumer(rng, shape):
         return head + "\tfor k := 0; k < 2; k++ {\n\t\tfor v := range %s {\n\t\t\tif v&1 == 1 {\n\t\t\t\tcontinue\n\t\t\t}\n\t\t\tif g1 && v > a {\n\t\t\t\tbreak\n\t\t\t}\n\t\t\tt = (t << 1) ^ v\n\t\t\tbreak\n\t\t}\n\t\trt.Emit(48, k)\n\t}\n" % fin + tail
     if shape == "first_element":
         return head + "\tfor v := range %s {\n\t\tt = v\n\t\tbreak\n\t}\n\tfor k := 0; k < 2; k++ {\n\t\tfor w := range %s {\n\t\t\tif g2 {\n\t\t\t\tcontinue\n\t\t\t}\n\t\t\tt = (t << 1) ^ w\n\t\t\tbreak\n\t\t}\n\t}\n" % (src, fin) + tail
+    if shape == "assign_to_element_moving_index":
+        return head + "\tdst := make([]int, 6)\n\ti := 0\n\tfor dst[i] = range %s {\n\t\ti++\n\t\tif i >= 5 || (g1 && i >= 2) {\n\t\t\tbreak\n\t\t}\n\t}\n\tfor _, d := range dst {\n\t\trt.Emit(49, d)\n\t\tt = (t << 1) ^ d\n\t}\n" % fin + tail
+    if shape == "assign_to_field_moving_pointer":
+        return ("type node@ struct {\n\tval  int\n\tnext *node@\n}\n\n" + head +
+                "\tn3 := &node@{}\n\tn2 := &node@{next: n3}\n\tn1 := &node@{next: n2}\n\tp := n1\n\tfor p.val = range %s {\n\t\tif p.next == nil || (g2 && p == n2) {\n\t\t\tbreak\n\t\t}\n\t\tp = p.next\n\t}\n\trt.Emit(49, n1.val)\n\trt.Emit(49, n2.val)\n\trt.Emit(49, n3.val)\n\tt = n1.val ^ (n2.val << 1) ^ (n3.val << 2)\n" % fin + tail)
+    if shape == "assign_to_deref_moving_pointer":
+        return head + "\tvar arr [4]int\n\tq := &arr[0]\n\tj := 0\n\tfor *q = range %s {\n\t\tj++\n\t\tif j >= 4 {\n\t\t\tbreak\n\t\t}\n\t\tq = &arr[j]\n\t}\n\tfor _, d := range arr {\n\t\trt.Emit(49, d)\n\t\tt = (t << 1) ^ d\n\t}\n" % fin + tail
+    if shape == "assign_to_map_entry_moving_key":
+        return head + "\tm := map[int]int{}\n\tk := 0\n\tfor m[k] = range %s {\n\t\tk++\n\t\tif k >= 3 {\n\t\t\tbreak\n\t\t}\n\t}\n\tfor q := 0; q < 3; q++ {\n\t\trt.Emit(49, m[q])\n\t\tt = (t << 1) ^ m[q]\n\t}\n" % fin + tail
     if shape == "param_pass":
         return ("func drain@(it Iter[int], lim int, g bool) int {\n\tt := 0\n\tfor v := range it {\n\t\tt = (t << 1) ^ v\n\t\tlim--\n\t\tif lim <= 0 || (g && v > 5) {\n\t\t\tbreak\n\t\t}\n\t}\n\treturn t\n}\n\n" +
                 head + "\tit := %s\n\tt = drain@(it, 2, g1)\n\trt.Emit(46, t)\n\tt = (t << 1) ^ drain@(it, 2, g2)\n" % src + tail)
@@ -1822,7 +1851,8 @@ def c06_consumer(rng, shape):
 
 C06_SHAPES = ["range_define", "range_assign", "nested", "pull_then_range", "range_then_pull", "struct_field", "map_slice", "closure_pull", "generic_take", "param_pass",
               "field_reassigned_in_loop", "index_changed_in_loop", "map_entry_reassigned_in_loop", "operand_evaluated_once",
-              "first_match_nested", "first_element"]
+              "first_match_nested", "first_element",
+              "assign_to_element_moving_index", "assign_to_field_moving_pointer", "assign_to_deref_moving_pointer", "assign_to_map_entry_moving_key"]
 
 
 def c06_programs(rng, per_shape):
@@ -2008,6 +2038,53 @@ C12_STANDALONE = [
 
 func G@(a, b, n int, g1, g2, g3 bool) (_ Iter[int]) {
 	YieldFrom(GT@([]int{a, b, a + b}))
+	return
+}
+"""),
+    ("range_type_param_after_supported_range", """func GT@[S ~[]int](s S, xs []int) (_ Iter[int]) {
+	for _, x := range xs {
+		Yield(x + 1)
+	}
+	for i, v := range s {
+		Yield(v + i)
+	}
+	return
+}
+
+func G@(a, b, n int, g1, g2, g3 bool) (_ Iter[int]) {
+	YieldFrom(GT@([]int{a, b, a + b}, []int{b}))
+	return
+}
+"""),
+    ("range_type_param_around_supported_range", """func GT@[S ~[][]int](rows S) (_ Iter[int]) {
+	for _, row := range rows {
+		Yield(-1)
+		for _, v := range row {
+			Yield(v)
+		}
+	}
+	return
+}
+
+func G@(a, b, n int, g1, g2, g3 bool) (_ Iter[int]) {
+	YieldFrom(GT@([][]int{{a, b}, {a + b}}))
+	return
+}
+"""),
+    ("range_type_param_map_after_string_range", """func GT@[M ~map[int]int](m M, s string) (_ Iter[int]) {
+	t := 0
+	for _, c := range s {
+		t += int(c)
+	}
+	Yield(t)
+	for k, v := range m {
+		Yield(k*100 + v)
+	}
+	return
+}
+
+func G@(a, b, n int, g1, g2, g3 bool) (_ Iter[int]) {
+	YieldFrom(GT@(map[int]int{1: a}, "ab"))
 	return
 }
 """),
